@@ -219,6 +219,16 @@ def explore(ctx):
         expr, alpha = rnd.choice(kinds)
         s = ''.join(rnd.choice(alpha + alpha[:2]) for _ in range(rnd.randint(9, 60)))
         do_find(expr, '', s, rnd.randint(-1, len(s) + 1), 'find:random')
+    # history independence: the same text queried for different delimiter kinds and positions in random order
+    # (a matcher is a function of its arguments: nothing may carry over from one call to the next)
+    mixed = ['{a} (b)', '(a) {b} [c] <d>', '{(})', '<(a)>{[b]}', '((a)) {{b}} (', 'x{y(z)}w[<q>]']
+    for _ in range(40 if ctx.quick() else 400):
+        mixed.append(''.join(rnd.choice('(){}[]<>ab ') for _ in range(rnd.randint(4, 14))))
+    for s in mixed:
+        calls = [(expr, pos) for expr, _a in kinds for pos in range(0, len(s))]
+        rnd.shuffle(calls)
+        for expr, pos in calls[: (16 if ctx.quick() else 60)]:
+            do_find(expr, '', s, pos, 'find:interleaved', model=False)
     # deep nesting: far beyond any recursion limit
     for expr, alpha in kinds:
         o, c = expr.value
